@@ -195,6 +195,9 @@ def run(ck, prog):
     ck.ob("R05.6", "find_local-innermost-first", rev, "scopes are iterated in reverse (innermost first)",
           msg="Scopes::find_local does not iterate the scope stack innermost-first")
     ck.count(len(ide))
+    ck.rule("R05.7", "a declaration is registered whether or not the type of its value is known")
+    from .c18 import rule_registration_before_value
+    rule_registration_before_value(ck, prog, "R05.7")
 
 
 def file_stack_rule(ck, prog, rule):
